@@ -10,7 +10,8 @@ W=$(mktemp -d /tmp/seedeval.XXXXXX)
 trap 'rm -rf "$W"' EXIT
 rsync -a --exclude .git --exclude /fc/fc --exclude /cmd/build_sample_md/build_sample_md --exclude seed_demo /repo/ "$W/clean/"
 rsync -a "$W/clean/" "$W/patched/"
-(cd "$W/patched" && git init -q . 2>/dev/null; git apply --whitespace=nowarn "$src/seed_demo/patch.diff") || { echo "PATCH-DOES-NOT-APPLY"; exit 3; }
+(cd "$W/patched" && git init -q . 2>/dev/null; git apply --whitespace=nowarn "$src/seed_demo/patch.diff" 2>/dev/null || patch -p1 -F3 -s < "$src/seed_demo/patch.diff") || { echo "PATCH-DOES-NOT-APPLY"; exit 3; }
+find "$W/patched" -name '*.orig' -delete
 tests=pass
 for m in cmd/build_sample_md fc pkg/buf pkg/dict pkg/frt pkg/slice pkg/strings pkg/sys tinyfo; do
   (cd "$W/patched/$m" && go test -vet=off -count=1 ./... >"$W/test.log" 2>&1) || { tests="FAIL in $m"; break; }
